@@ -455,17 +455,19 @@ def irSave (sig : List (String × Bool)) (tnames : List String) (dir name rel : 
 def guardHits (deep : Bool) (sig : List (String × Bool)) (cv : List (Option Nat)) : List String :=
   ((sig.zip cv).filter fun (x : (String × Bool) × Option Nat) => x.2.isNone && (deep || !x.1.2)).map (·.1.1)
 
-/-- Which version of the guards of `save_model_with_external_data` is in the tree (probed / pinned by the harness):
-`deep` — the uninitialized-initializer guard walks every graph (fix 1c518f5) instead of the main graph only;
-`refuse` — a second guard refuses, before writing, a model one of whose initializers is an `ExternalTensor` stored in
-the destination data file (proposed fix for C20-D1);
-`keepNames` — the names of the initializers' tensors are remembered and put back in a `finally` (proposed fix for C20-D4);
+/-- Which guards `save_model_with_external_data` has.  **The defaults are the code as it is** (pinned by the harness, no
+probing): all three repairs are in /repo.  The `false` values describe the function before the respective commit and are kept
+only so that the refutation theorems of the old behaviour remain stated.
+`deep` — the uninitialized-initializer guard walks every graph (1c518f5; function bodies b7a9ed1 are outside the model);
+`refuse` — the second guard refuses, before writing, a model one of whose initializers is an `ExternalTensor` stored in
+the destination data file (56a0c3c, finding C20-D1);
+`keepNames` — the names of the initializers' tensors are remembered and put back in a `finally` (657db39, finding C20-D4);
 `tqdm` — `importlib.util.find_spec("tqdm") is not None` (environment, not code): the progress-bar branch with its callback
 is taken iff `verbose and tqdm`. -/
 structure Cfg where
   deep : Bool := true
-  refuse : Bool := false
-  keepNames : Bool := false
+  refuse : Bool := true
+  keepNames : Bool := true
   tqdm : Bool := true
   deriving Repr, DecidableEq, Inhabited
 
